@@ -65,6 +65,7 @@ class SimCfg:
     boot_crash: dict[int, str] = field(default_factory=dict)        # worker number -> lifecycle point at which it dies
     #   'boot' (before workerready) | 'collect' (after ready, before collectionfinish) | 'collected' (right after collectionfinish)
     #   | 'finish' (instead of workerfinished) | 'garbage' (sends an undecodable message after collectionfinish)
+    #   | 'interrupt' (not a death: the session is interrupted after collection, exit status 2)
     oserror_window: bool = False              # sending to a dead, not yet noticed worker raises OSError (execnet may do either)
     worker_maxfail: bool = True               # workers count their own failures against --maxfail (pytest does)
     tx: list[str] = field(default_factory=list)   # explicit --tx specs (one per worker) instead of numnodes*popen
@@ -265,9 +266,16 @@ class SimWorker:
                 data = sim.config.hook.pytest_report_to_serializable(config=sim.config, report=rep)
                 self.emit("collectreport", data=data)
                 self.produced.append(("collect", text))
+                # Session.pytest_collectreport counts a collection error against --maxfail
+                self.local_fail += 1
+                if cfg.worker_maxfail and cfg.maxfail and self.local_fail >= cfg.maxfail and not self.shouldfail:
+                    self.shouldfail = f"stopping after {self.local_fail} failures"
             self.emit("collectionfinish", topdir="/top", ids=list(self.ids))
-            if errs:
-                # pytest: "Interrupted: N errors during collection" -> the worker session ends with exit status 2
+            if point == "interrupt":
+                # the worker's session is interrupted before it enters the test loop (Ctrl-C, pytest.exit() in a conftest):
+                # exit status 2.  Collection errors alone do NOT do this in an xdist worker: its own pytest_runtestloop
+                # takes precedence over the one of _pytest.main that raises "Interrupted: N errors during collection"
+                # (a real `pytest -n2` run on a suite with an import error: "2 passed, 1 error", workers exit with 1).
                 self.exitstatus = 2
                 self.pc = "finish"
             elif point == "garbage":
@@ -277,7 +285,8 @@ class SimWorker:
             else:
                 self.pc = "loop0"
                 self.cb_set = True          # pytest_runtestloop registers handle_command
-            self.sys_steps.append(f"main {self.id[2:]} collect {'1' if point == 'garbage' and not errs else '0'}"
+            optf = lambda v: esc(str(v)) if v else "-"  # noqa: E731
+            self.sys_steps.append(f"main {self.id[2:]} collect {'1' if point == 'garbage' else '0'} {'1' if point == 'interrupt' else '0'} {optf(self.shouldfail)}"
                                   + "".join(f" {esc(str((t.split('|')[0], 1, 'Skipped: ' + t)))} 0" for t in skips)
                                   + "".join(f" {esc(t)} 1" for t in errs))
             if point == "collected":
